@@ -224,6 +224,7 @@ func vfAdversarialBFS(c *hx.Ctx, prefix string, depth int, full bool) {
 				var newSn []uint32
 				var seen map[uint32]bool
 				var emitBad string
+				var emittedCmds [256]int
 				var cur *KCP
 				out := func(buf []byte, size int) {
 					if size <= 0 || size > int(cur.mtu) {
@@ -236,6 +237,7 @@ func vfAdversarialBFS(c *hx.Ctx, prefix string, depth int, full bool) {
 						return
 					}
 					for _, sg := range segs {
+						emittedCmds[sg.Cmd]++
 						if free := max(int(cur.rcv_wnd)-cur.rcv_queue.Len(), 0); int(sg.Wnd) != free {
 							emitBad = fmt.Sprintf("advertises wnd=%d with %d of %d delivery-queue slots free", sg.Wnd, free, cur.rcv_wnd)
 						}
@@ -291,11 +293,13 @@ func vfAdversarialBFS(c *hx.Ctx, prefix string, depth int, full bool) {
 							}
 						}
 						newSn, emitBad = newSn[:0], ""
+						emittedCmds = [256]int{}
 						k2 := vfCloneKCP(st.k, out)
 						cur = k2
 						now2 := st.now
 						vfSetMs(now2)
 						preUna, preRmt, preCwnd := k2.snd_una, k2.rmt_wnd, k2.cwnd
+						preProbe, preProbeWait, preTsProbe := k2.probe, k2.probe_wait, k2.ts_probe
 						isInput := a.name[0] == 'P' || a.name[0] == 'A' || a.name[0] == 'c'
 						panicked := ""
 						func() {
@@ -332,7 +336,17 @@ func vfAdversarialBFS(c *hx.Ctx, prefix string, depth int, full bool) {
 								viol(prefix+"adversarial:reorder-buffer-outside-window", fmt.Sprintf("buffers sn=rcv_nxt%+d with window %d", d, k2.rcv_wnd), path)
 							}
 						}
-						if prefix == "C10:" {
+						if prefix == "C03:" {
+							// zero-window probing: a full flush must answer a pending window probe with WINS, and must probe (WASK)
+							// when the peer's window is zero and the probe timer has expired — whatever else is pending
+							fullFlush := !isInput && (a.name == "flush" || len(a.name) > 4 && a.name[:4] == "tick")
+							if fullFlush && preProbe&IKCP_ASK_TELL != 0 && emittedCmds[IKCP_CMD_WINS] == 0 {
+								viol("C03:adversarial:window-probe-not-answered", "a window probe (WASK) was pending but the flush did not announce the window (no WINS)", path)
+							}
+							if fullFlush && preRmt == 0 && preProbeWait != 0 && int32(now2-preTsProbe) >= 0 && emittedCmds[IKCP_CMD_WASK] == 0 {
+								viol("C03:adversarial:zero-window-not-probed", "the peer's window is zero and the probe timer has expired but the flush did not send a window probe (no WASK)", path)
+							}
+						} else if prefix == "C10:" {
 							// only the emission-size clause is judged under C10
 						} else if len(newSn) > 0 && prefix == "C04:" { // send-side window clause: C04 only (C05 is about crashes and buffering limits)
 							una, rmt := preUna, preRmt
